@@ -11,7 +11,7 @@ PART_LISTS = [[0], [0, 1], [0, 1, 2], [0, 1, 2, 3], [2, 0, 1], [5, 7], [1, 0]]
 ERR_CODES = [6, 3, 7, 19, 10, 5, 2, -1, 99, 1]
 TOTAL_KINDS = ["lu", "pu", "ua", "cc", "b19", "b6", "tc", "ac1", "o4", "nr"]
 FAIL_KINDS = ["tc", "cc", "b7", "ua", "o4"]
-DTS = ["1/16", "1/8", "1/4", "1/4", "1/2", "1/2", "1", "1", "2", "5", "30"]
+DTS = ["1/16", "1/8", "1/4", "1/4", "1/2", "1/2", "1", "1", "2", "5", "30", "120"]
 
 FOCI = ("C01", "C09", "C19")
 
@@ -26,8 +26,9 @@ def gen_cfg(rng, focus):
         n, b, t = rng.choice([(10, 32768, "30"), (1, 1, None), (3, 50, "1")])
     return {
         "acks": rng.choice([1, 1, -1, 0] if focus != "C01" else [1, -1, 0, 0, 1]),
-        "max_attempts": rng.choice([1, 2, 3, 3, 4, 5, 10, 0]) if rng.random() < 0.9 else rng.choice([1, 2]),
-        "retry_interval": rng.choice(["1/4", "1/4", "1/2", "1", "0", "1/8"]),
+        # (attempt limits up to 25 and intervals up to a minute: the geometric sequence of delays is followed far out)
+        "max_attempts": rng.choice([1, 2, 3, 3, 4, 5, 10, 0, 12, 25]) if rng.random() < 0.9 else rng.choice([1, 2]),
+        "retry_interval": rng.choice(["1/4", "1/4", "1/2", "1", "0", "1/8", "1/10", "3", "5", "20", "60"]),
         "batch_send": batch, "n": n, "b": b, "t": t,
         "partitioner": "hashed" if rng.random() < 0.25 else "rr",
         "codec": 1 if rng.random() < 0.2 else 0,
@@ -131,6 +132,25 @@ def cancel_outcomes(rng, real):
     return wipe, outs
 
 
+def gen_raw(rng, ntopics):
+    """`send_messages` with arguments of any Python type: mostly one defect at a time, sometimes several (the order of
+    the checks decides which error is reported), sometimes none (a tuple instead of a list is fine)"""
+    x = rng.random()
+    topic = "s2:%d" % rng.randrange(ntopics) if x < 0.8 else rng.choice(["o", "o", "s0:0", "s250:0"])
+    x = rng.random()
+    key = "N" if x < 0.4 else ("b" + (rng.choice(KEYS[2:]) or "-")) if x < 0.8 else "o"
+    x = rng.random()
+    if x < 0.2:
+        msgs = "F"
+    elif x < 0.3:
+        msgs = "U"
+    else:
+        n = rng.choice([1, 1, 2, 3, 4])
+        bad = 0.0 if rng.random() < 0.35 else 0.3
+        msgs = "S" + ",".join("o" if rng.random() < bad else "n" if rng.random() < 0.15 else str(rng.randrange(0, 40)) for _ in range(n))
+    return ["sendraw", topic, key, msgs, rng.randrange(12)]
+
+
 def gen_hook(rng, ntopics, next_sid, allow_stop):
     """a callback that calls back into the Producer: 1-2 of send_messages / cancel of some send / stop()"""
     hook = []
@@ -159,6 +179,13 @@ def gen_scenario(rng, focus, length=None, cfg=None, hooks=None):
     style = {"kind": rng.choice(["ok", "persist-err", "mixed", "mixed", "transport"]), "salt": rng.randrange(100),
              "code": rng.choice(ERR_CODES), "acks0": cfg["acks"] == 0}
     meta_good = rng.random() < 0.7
+    # SYNCHRONOUS ANSWERS: in a fifth of the scenarios (without re-entrant callbacks) the client answers some produce
+    # requests before send_produce_request returns - one by one, or every request of a stretch (a failure known
+    # without I/O that repeats until the attempts run out)
+    sync = (rng.choice(["some", "some", "runs"]) if rng.random() < 0.2 else None) if not hooks else None
+    sync_modes = (["none", "empty", "empty", "allfail:cc", "allfail:tc", "err:lu"] if cfg["acks"] == 0 else
+                  ["err:lu", "err:lu", "err:ua", "err:pu", "err:cc", "err:b19", "allok", "allok", "allerr:6", "allerr:%d" % style["code"],
+                   "allfail:cc", "allfail:b7", "empty", "none"])
     next_sid = 0
     stopped = False
     tail = None
@@ -180,6 +207,10 @@ def gen_scenario(rng, focus, length=None, cfg=None, hooks=None):
             tail -= 1
             if tail < 0:
                 break
+        if sync and not stopped and len(real.client.sync_queue) < 2 and rng.random() < (0.25 if sync == "some" else 0.1):
+            mode = rng.choice(sync_modes)
+            for _ in range(1 if sync == "some" else rng.choice([2, 3, 4, 6, 11])):
+                emit(["syncnext", mode])
         opts = [("send", 0.30 if not stopped else 0.1)]
         if pend:
             opts.append(("complete", 0.45))
@@ -240,7 +271,9 @@ def gen_scenario(rng, focus, length=None, cfg=None, hooks=None):
             else:
                 emit(["metawipe"])
         else:
-            if hooks and rng.random() < hooks:
+            if rng.random() < 0.06:
+                emit(gen_raw(rng, ntopics))
+            elif hooks and rng.random() < hooks:
                 hook = gen_hook(rng, ntopics, next_sid, hook_stop_left > 0 and not stopped)
                 if any(a[0] == "x" for a in hook):
                     hook_stop_left -= 1
